@@ -195,6 +195,20 @@ func Check(c Case) (fs []core.Finding, outcome string) {
 	return nil, "ok:" + v.K.String()
 }
 
+// NearMisses: shapes next to the ones DAG-JSON reserves.
+func NearMisses() []ref.Val { return nearMisses() }
+
+// ReservedShapes: the shapes DAG-JSON reserves (ordinary maps for every other codec), alone and nested.
+func ReservedShapes() []ref.Val {
+	cidText := "bafkreifw7plhl6mofk6sfvhnfh64qmkq73oeqwl6sloru6rehaoujituke"
+	var out []ref.Val
+	for _, in := range []ref.Val{ref.Str("x"), ref.Str(""), ref.Str(cidText), ref.Map(ref.E("bytes", ref.Str("aGk"))), ref.Map(ref.E("bytes", ref.Str(""))), ref.Map(ref.E("bytes", ref.Str("not base64!")))} {
+		m := ref.Map(ref.E("/", in))
+		out = append(out, m, ref.List(m), ref.Map(ref.E("a", m)), ref.Map(ref.E("/", ref.Map(ref.E("/", in)))))
+	}
+	return out
+}
+
 func nearMisses() []ref.Val {
 	s, i := ref.Str("x"), ref.Int(1)
 	return []ref.Val{
@@ -285,6 +299,14 @@ func Main(r *core.Run) {
 		r.Report("value", c, fs)
 	})
 	histories(r)
+	typedValues(r)
+	var hv []ref.Val
+	for _, c := range cases {
+		if c.Impl == "basic-any" {
+			hv = append(hv, c.V)
+		}
+	}
+	c02.RunHelpers(r, "dag-json", dagjson.Encode, dagjson.Decode, hv)
 	r.Sample(map[string]any{"value": cases[len(cases)/2].V.String(), "impl": cases[len(cases)/2].Impl})
 	r.Sample(map[string]any{"value": nearMisses()[3].String(), "what": "reserved-shape near miss: two entries, first is \"/\": string"})
 	r.Set("cases", len(cases))
@@ -322,6 +344,16 @@ func Replay(r *core.Run, raw json.RawMessage) {
 	var hc HCase
 	if json.Unmarshal(raw, &hc) == nil && hc.Fault != "" {
 		r.Report("history", hc, CheckHistory(hc))
+		return
+	}
+	var hp c02.HelperCase
+	if json.Unmarshal(raw, &hp) == nil && hp.Codec != "" {
+		r.Report("helpers", hp, c02.CheckHelpers(hp.Codec, dagjson.Encode, dagjson.Decode, hp.V))
+		return
+	}
+	var tc TypedCase
+	if json.Unmarshal(raw, &tc) == nil && tc.Schema != "" {
+		replayTyped(r, tc)
 		return
 	}
 	var c Case
